@@ -18,4 +18,37 @@ pub fn current_ops() -> [Option<Op>; 4] {
 pub fn clear() {
     let mut g = CUR.lock().unwrap_or_else(|e| e.into_inner());
     *g = [None; 4];
+    let mut f = FAMS.lock().unwrap_or_else(|e| e.into_inner());
+    *f = [0; 4];
+}
+
+/// Property families (bit i = property C(i)) accumulated by the allocations involved in what the
+/// simulated threads are doing right now; printed with a violation for attribution.
+static FAMS: Mutex<[u32; 4]> = Mutex::new([0; 4]);
+
+pub fn fam_bit(name: &str) -> u32 {
+    match name.trim_start_matches('C').parse::<u32>() {
+        Ok(n) if n < 32 => 1 << n,
+        _ => 0,
+    }
+}
+pub fn fam_mask(families: &str) -> u32 {
+    families.split_whitespace().map(fam_bit).fold(0, |a, b| a | b)
+}
+pub fn set_fams(t: usize, mask: u32) {
+    let mut g = FAMS.lock().unwrap_or_else(|e| e.into_inner());
+    g[t.min(3)] = mask;
+}
+pub fn add_fams(t: usize, mask: u32) {
+    let mut g = FAMS.lock().unwrap_or_else(|e| e.into_inner());
+    g[t.min(3)] |= mask;
+}
+pub fn current_fams() -> u32 {
+    match FAMS.try_lock() {
+        Ok(g) => g.iter().fold(0, |a, b| a | b),
+        Err(_) => 0,
+    }
+}
+pub fn fams_text(mask: u32) -> String {
+    (0..32).filter(|i| mask & (1 << i) != 0).map(|i| format!("C{:02}", i)).collect::<Vec<_>>().join(",")
 }
